@@ -95,12 +95,46 @@ def r1_bound(ck, cx, sh):
         ck.ob('R1', tr.qn, '_transact transmits at most once', len(sends) <= 1, detail='sends-per-transact %d' % len(sends), loc=cx.floc(tr))
     # configured value reaches the loop unmodified
     init = cx.method(cx.idx.cls('pymodbus.transaction.ModbusTransactionManager'), '__init__')
-    for n in ast.walk(init.node):
-        if isinstance(n, ast.Assign) and any(U(t) == 'self.retries' for t in n.targets):
-            v = n.value
-            plain = isinstance(v, ast.Call) and callee_name(v) == 'get' and v.args and cx.ce.try_ev(v.args[0], init.mod, None) == 'retries'
-            ck.ob('R1', init.qn, 'self.retries is the configured value unmodified', plain, detail='retries-rewritten %s' % U(v)[:50], loc=cx.floc(init, n),
-                  message='self.retries = %s: a configured retries=0 does not stay 0 (the request is transmitted 2 times instead of 1)' % U(v))
+    # what becomes of a configured retries=0: the value stored in self.retries on each constructor path, with the sub-expression that
+    # fetches the option ('retries' looked up in the keyword arguments, directly or through a private helper) replaced by 0 and folded
+    import copy as _copy
+    tmc = cx.idx.cls('pymodbus.transaction.ModbusTransactionManager')
+    outcomes = set()
+    site = None
+    for p in cx.enum(init, tmc, max_depth=2):
+        if p.exit and p.exit[0] == 'exc':
+            continue
+        annotate(p, heap=False)
+        for e in p.ev:
+            if e.kind == 'assign' and U(e.a) == 'self.retries' and e.frame.fid == 0:
+                site = e.node
+                v = getattr(e, '_sub', None) or e.node.value
+
+                class Z(ast.NodeTransformer):
+                    hit = False
+
+                    def visit_Call(self, c):
+                        if any(isinstance(a, ast.Constant) and a.value == 'retries' for a in c.args):
+                            Z.hit = True
+                            return ast.Constant(value=0)
+                        return self.generic_visit(c)
+
+                    def visit_Subscript(self, c):
+                        if isinstance(c.slice, ast.Constant) and c.slice.value == 'retries':
+                            Z.hit = True
+                            return ast.Constant(value=0)
+                        return self.generic_visit(c)
+                Z.hit = False
+                z = Z().visit(_copy.deepcopy(v))
+                ast.fix_missing_locations(z)
+                if Z.hit:           # only the paths on which the option was supplied
+                    outcomes.add(cx.ce.try_ev(z, init.mod, tmc, default='?'))
+    if site is not None:
+        bad = sorted(str(o) for o in outcomes if o != 0)
+        ck.ob('R1', init.qn, 'self.retries is the configured value unmodified (0 stays 0)', not bad, detail='retries-zero-becomes %s' % ','.join(bad), loc=cx.floc(init, site),
+              message='a configured retries=0 is stored as %s: the request is transmitted more often than 1 + retries' % ','.join(bad))
+    else:
+        ck.ob('R1', init.qn, 'the constructor stores the configured retries', False, detail='retries-not-stored', loc=cx.floc(init))
 
 
 def _anc(n):
